@@ -94,8 +94,19 @@ def handlePass : Handler := fun j a => do
   -- eligible for lag-offline (before the cap)
   let elig := cs.filter fun (h, st) => h != master && st.pingOk && !st.isOffline && !mro &&
     (match st.slave.bind (·.lag) with | some l => decide (l > cfg.enableLag) | none => false)
+  -- eligible for the gradual shutdown of permanently broken replicas
+  let brokenElig := cs.filter fun (h, st) => h != master && st.pingOk && !st.isOffline && st.permBroken && (st.slave.bind (·.lag)).isSome
   for h in offl do
-    if !(elig.any (·.1 == h)) then a := a.violationSig "C17:offline-for-lag-without-conditions" s!"host {h} in {j.compress}"
+    if !(elig.any (·.1 == h)) && !(brokenElig.any (·.1 == h)) then a := a.violationSig "C17:offline-for-lag-without-conditions" s!"host {h} in {j.compress}"
+  -- "permanently broken replicas are taken offline at most one per configured interval cluster-wide": one pass takes at
+  -- most one, and none while the record of the last one is younger than the interval
+  let brokenOff := (offl.filter fun h => brokenElig.any (·.1 == h) && !(elig.any (·.1 == h))).eraseDups
+  let lastShut := jIntOr j "last_shut" 0
+  if brokenOff.length > 1 || jIntOr j "last_updates" 0 > 1 then
+    a := a.violationSig "C17:more-than-one-broken-replica-taken-offline-within-the-interval" s!"{brokenOff} in {j.compress}"
+  if lastShut == 2 && !brokenOff.isEmpty then
+    a := a.violationSig "C17:broken-offline-ignores-rate-limit" s!"{brokenOff} in {j.compress}"
+  let offl := offl.filter fun h => elig.any (·.1 == h)
   -- per zone: number taken must be exactly what the accumulating cap allows (order-free because the
   -- filter depends only on the count of earlier same-zone hosts)
   let zones := (elig.map fun (h, _) => getAZ h cfg.azSeparator).eraseDups
